@@ -273,7 +273,12 @@ def run(ctx, pid, args):
     # ---- evidence -------------------------------------------------------------------------------------
     keys = set()
     for r in recs:
-        k = P.nontrivial_key(r['case'], r['impl']) if hasattr(P, 'nontrivial_key') else vlib.case_hash(r['case'])
+        # the verdict is already decided: bookkeeping for the evidence must not turn it into a crash (an implementation output the
+        # module's statistics cannot read - typically on a changed tree - is counted by its hash)
+        try:
+            k = P.nontrivial_key(r['case'], r['impl']) if hasattr(P, 'nontrivial_key') else vlib.case_hash(r['case'])
+        except Exception:
+            k = vlib.case_hash(r['case'])
         if k is not None:
             keys.add(json.dumps(k, sort_keys=True, default=str))
     n_obl = len(obligations)
@@ -300,7 +305,7 @@ def run(ctx, pid, args):
         'traces_validated_against_impl': len(recs) if ok_drv else 0,
         'model_disagreements': len(model_dis), 'spec_disagreements': len(spec_vio), 'discarded_at_rounding_boundaries': discards,
         'extra_checks': [{'name': e['name'], 'ok': e['ok']} for e in extra][:50],
-        'distribution': P.distribution(recs) if hasattr(P, 'distribution') else {},
+        'distribution': safe_distribution(P, recs),
         'samples': samples,
         'build_seconds': round(t_build, 1),
         'phase_seconds': phases,
@@ -316,6 +321,15 @@ def run(ctx, pid, args):
     vlib.write_evidence(pid, ctx.tier, ctx.seed, getattr(P, 'LEVEL', 'proof'), coverage,
                         list(getattr(P, 'ASSUMPTIONS', [])), time.time() - t0, n_viol)
     return 1 if printed_violation else 0
+
+
+def safe_distribution(P, recs):
+    if not hasattr(P, 'distribution'):
+        return {}
+    try:
+        return P.distribution(recs)
+    except Exception as e:
+        return {'distribution_unavailable': f'{type(e).__name__}: {str(e)[:200]}'}
 
 
 def leanchecker(pid):
